@@ -17,6 +17,7 @@ package main
 // The oracle knows only the entry list.
 
 import (
+	"testing/iotest"
 	"archive/tar"
 	"archive/zip"
 	"bytes"
@@ -136,10 +137,20 @@ func buildTar(es []aEntry) ([]byte, error) {
 	return buf.Bytes(), nil
 }
 
+// errArchiveNew: the archive was written and is well formed (the standard library reads it), but
+// zipfs.New / tarfs.New failed on it
+type errArchiveNew struct{ what string }
+
+func (e errArchiveNew) Error() string { return e.what }
+
 func openArchive(kind string, es []aEntry) (fs afero.Fs, err error) {
+	built := false
 	defer func() {
 		if r := recover(); r != nil {
 			fs, err = nil, fmt.Errorf("panic: %v", r)
+			if built {
+				err = errArchiveNew{fmt.Sprintf("%sfs.New panicked: %v", kind, r)}
+			}
 		}
 	}()
 	if kind == "zip" {
@@ -151,15 +162,26 @@ func openArchive(kind string, es []aEntry) (fs afero.Fs, err error) {
 		if err != nil {
 			return nil, err
 		}
+		built = true
 		return zipfs.New(zr), nil
 	}
 	b, err := buildTar(es)
 	if err != nil {
 		return nil, err
 	}
-	t := tarfs.New(tar.NewReader(bytes.NewReader(b)))
+	built = true
+	// the tar stream comes from a source that delivers short reads (a pipe, a gzip stream) for half
+	// of the archives, by the digest of their bytes
+	var src io.Reader = bytes.NewReader(b)
+	if fnv64(b)%2 == 1 {
+		src = iotest.HalfReader(iotest.OneByteReader(bytes.NewReader(b)))
+		if fnv64(b)%4 == 1 {
+			src = iotest.HalfReader(bytes.NewReader(b))
+		}
+	}
+	t := tarfs.New(tar.NewReader(src))
 	if t == nil {
-		return nil, fmt.Errorf("tarfs.New returned nil")
+		return nil, errArchiveNew{"tarfs.New returned nil"}
 	}
 	return t, nil
 }
@@ -748,6 +770,10 @@ func (r *arcRun) checkView() {
 func execArc(c *Ctx, id, kind, entries, prog string, checked bool) {
 	es := parseEntries(entries)
 	fs, err := openArchive(kind, es)
+	if e, ok := err.(errArchiveNew); ok {
+		c.Oracle("FAIL %s %s:new-failed a well-formed archive (%s) could not be opened: %s", id, kind, entries, e.what)
+		return
+	}
 	if err != nil {
 		c.Count("skipped.archive-not-built")
 		c.Extra["last-build-error"] = err.Error()
@@ -1014,6 +1040,9 @@ func c14ReadOp(r *Rng, h int, size int, pos *int) string {
 }
 
 func runC14(c *Ctx) {
+	if c.From == nil {
+		runC14Big(c)
+	}
 	if c.From != nil {
 		for _, cs := range c.From {
 			t := strings.Fields(cs[0])
@@ -1253,4 +1282,81 @@ func runC14(c *Ctx) {
 		}
 	}
 	_ = strconv.Itoa
+}
+
+// entries larger than any internal buffer cap (oracle only; the model's byte lists are not made
+// for tens of megabytes): whole-file reads, positional reads far into a fresh handle, Seek + Read
+func runC14Big(c *Ctx) {
+	const size = 17<<20 + 12345
+	data := make([]byte, size)
+	for i := range data {
+		data[i] = byte(i*7 + i>>11)
+	}
+	n := 0
+	check := func(kind string, fs afero.Fs, name string) {
+		fail := func(sig, format string, a ...any) {
+			c.Oracle("FAIL big-%s %s:big-entry %s", kind, sig, fmt.Sprintf(format, a...))
+		}
+		func() {
+			defer func() {
+				if r := recover(); r != nil {
+					fail(kind+":panic", "a read of the %d-byte entry panicked: %v", size, r)
+				}
+			}()
+			n++
+			got, err := afero.ReadFile(fs, name)
+			if err != nil || !bytes.Equal(got, data) {
+				fail(kind+":content", "ReadFile of the %d-byte entry returned %d bytes, %v", size, len(got), err)
+			}
+			f, err := fs.Open(name)
+			if err != nil {
+				fail(kind+":open", "%v", err)
+				return
+			}
+			defer f.Close()
+			buf := make([]byte, 100)
+			for _, off := range []int64{16<<20 + 5, size - 100, 3} {
+				k, err := f.ReadAt(buf, off)
+				if k != 100 || (err != nil && err != io.EOF) || !bytes.Equal(buf, data[off:off+100]) {
+					fail(kind+":content", "ReadAt(100, %d) on a fresh handle = %d, %v", off, k, err)
+				}
+			}
+			if pos, err := f.Seek(16<<20+77, io.SeekStart); err != nil || pos != 16<<20+77 {
+				fail(kind+":seek", "Seek = %d, %v", pos, err)
+			}
+			k, err := io.ReadFull(f, buf)
+			if k != 100 || err != nil || !bytes.Equal(buf, data[16<<20+77:16<<20+177]) {
+				fail(kind+":content", "Read after Seek(16 MiB + 77) = %d, %v", k, err)
+			}
+		}()
+	}
+	var zb bytes.Buffer
+	zw := zip.NewWriter(&zb)
+	for _, m := range []struct {
+		name   string
+		method uint16
+	}{{"stored.bin", zip.Store}, {"deflated.bin", zip.Deflate}} {
+		w, _ := zw.CreateHeader(&zip.FileHeader{Name: m.name, Method: m.method})
+		w.Write(data)
+	}
+	zw.Close()
+	if zr, err := zip.NewReader(bytes.NewReader(zb.Bytes()), int64(zb.Len())); err == nil {
+		zfs := zipfs.New(zr)
+		check("zip", zfs, "/stored.bin")
+		check("zip", zfs, "/deflated.bin")
+	}
+	var tb bytes.Buffer
+	tw := tar.NewWriter(&tb)
+	tw.WriteHeader(&tar.Header{Name: "big.bin", Mode: 0o644, Size: size, Typeflag: tar.TypeReg})
+	tw.Write(data)
+	tw.Close()
+	func() {
+		defer func() {
+			if r := recover(); r != nil {
+				c.Oracle("FAIL big-tar tar:panic:big-entry tarfs.New panicked: %v", r)
+			}
+		}()
+		check("tar", tarfs.New(tar.NewReader(bytes.NewReader(tb.Bytes()))), "/big.bin")
+	}()
+	c.Extra["big_entries"] = fmt.Sprintf("%d entries of %d bytes (zip stored, zip deflated, tar): whole reads, positional reads, Seek+Read (oracle only)", n, size)
 }
